@@ -26,6 +26,7 @@ Edit a single block's contents.
 
 
 import logging
+import uuid
 from typing import Container, List, MutableMapping, Optional, Set
 
 import gtirb
@@ -67,11 +68,20 @@ def _add_return_edges_for_patch_calls(
     cache: ModifyCache,
     module: gtirb.Module,
     new_cfg: gtirb.CFG,
+    new_proxy_blocks: Set[gtirb.ProxyBlock],
+    patch_func_uuid: Optional[uuid.UUID],
 ) -> None:
     """
     Finds all of the call edges added by the patch and adds new return edges
     to the callee.
     """
+    # Returns in the patch itself are returns of the function the patch is
+    # being inserted into, but its blocks are not part of the function yet.
+    patch_returns = {
+        edge.source
+        for edge in new_cfg
+        if _is_return_edge(edge) and edge.source.byte_interval is None
+    }
     call_edges = {edge for edge in new_cfg if _is_call_edge(edge)}
     # Because the assembler is generating this input, we can assume that there
     # is a single fallthrough edge out of each block.
@@ -95,6 +105,23 @@ def _add_return_edges_for_patch_calls(
         add_return_edges_to_callee(
             cache, module, func_uuid, fallthrough_target, new_cfg
         )
+
+        if func_uuid == patch_func_uuid:
+            for source in patch_returns:
+                for edge in list(new_cfg.out_edges(source)):
+                    if (
+                        _is_return_edge(edge)
+                        and edge.target in new_proxy_blocks
+                    ):
+                        new_cfg.discard(edge)
+                        new_proxy_blocks.discard(edge.target)
+                new_cfg.add(
+                    gtirb.Edge(
+                        source=source,
+                        target=fallthrough_target,
+                        label=gtirb.Edge.Label(type=gtirb.Edge.Type.Return),
+                    )
+                )
 
 
 def _update_patch_return_edges_to_match(
@@ -266,6 +293,10 @@ def insert(
         cache,
         module,
         code.cfg,
+        code.proxies,
+        cache.functions_by_block.get(block, None)
+        if isinstance(block, gtirb.CodeBlock)
+        else None,
     )
 
     # Stitch in the new blocks to the CFG
